@@ -30,8 +30,18 @@ fn do_union(ctx: &mut Ctx, a: &M, b: &M) {
         let (ha, hb) = (HNF::new(a), HNF::new(b));
         show_mat(&HNF::union(&ha, &hb).as_vecs())
     });
-    let (ha, hb) = (HNF::new(a).as_vecs(), HNF::new(b).as_vecs());
-    ctx.emit("union", &[show_mat(&ha), show_mat(&hb)], ans);
+    // the operands as normal forms (what `union` receives); if computing them panics the case is
+    // reported on the raw operands instead — nothing outside `run` may bring the harness down
+    let forms = std::panic::catch_unwind(|| (HNF::new(a).as_vecs(), HNF::new(b).as_vecs()));
+    match forms {
+        Ok((ha, hb)) => ctx.emit("union", &[show_mat(&ha), show_mat(&hb)], ans),
+        Err(_) => {
+            let ans = run(|| show_mat(&HNF::new(a).as_vecs()));
+            ctx.emit("hnfnew", &[show_mat(a)], ans);
+            let ans = run(|| show_mat(&HNF::new(b).as_vecs()));
+            ctx.emit("hnfnew", &[show_mat(b)], ans);
+        }
+    }
 }
 fn do_det(ctx: &mut Ctx, a: &M) {
     let ans = run(|| HNF::new(a).determinant().to_string());
